@@ -47,7 +47,7 @@ def need(c, driver, counters):
 
 
 def recipe(c: Check):
-    c.build(["Properties/C10.vo", "Corr/C10.vo"], harness=["c10"], units=["t5"])
+    c.build(["Properties/C10.vo", "Corr/C10.vo"], harness=["c10"], units=["t5", "t10rel"])
     c.obligations("C10")
     c.run_driver("connwrap", q(c.tier, 60, 200), shards=1, timeout=300)
     need(c, "connwrap", ["NW_GUARDED"])
